@@ -16,7 +16,7 @@ ID = "C01"
 LEVEL = "exploration"
 TIERS = {"quick": {"runs": 4800, "wall_cap": 600}, "thorough": {"runs": 120000, "wall_cap": 3300}}
 RULE = (
-    "each evaluation is one seeded history (<=45 quick / <=80 thorough steps) of add/addN/remove(8 shapes)/set/+=/-=/binary operators on a "
+    "each evaluation is one seeded history (<=45 quick / <=80 thorough steps) of add/addN/remove(8 shapes)/set/+=/-= (operand: another graph, an iterable that may die midway, the graph itself, a second Graph object on the same graph, a graph with the same identifier in another store)/binary operators on a "
     "Graph over Memory or SimpleMemory, with up to 4 lazy readers (triples/iter/subjects/predicates/objects/slices) opened, stepped, closed "
     "and dropped by the scheduler between mutations (Memory only); after every mutation len, iteration, membership of every vocabulary "
     "triple and triples(pattern) for every pattern over the vocabulary are compared with a Python set; distinct = distinct trace digest; "
